@@ -63,6 +63,18 @@ Proof.
   walk.
 Qed.
 
+
+From Coq Require Import String.
+
+(** tokenize(): what is done with the generator in each delivery mode (a callback is served token by token, as the generator
+    produces them -- nothing is collected first) *)
+Lemma tie2_delivery :
+  delivery_modes2 =
+  ["callback: each token is passed to callback(*token) as the generator produces it; returns None";
+   "callback and generator: each token is passed to callback(*token) as the generator produces it; returns None";
+   "generator: returns the generator"; "list: returns list(generator)"]%string.
+Proof. reflexivity. Qed.
+
 Print Assumptions tie2_iter_step.
 Print Assumptions tie2_tokenize.
 Print Assumptions tie2_validate.
